@@ -162,15 +162,68 @@ fn build(c: &RanksCase) -> (Vec<bool>, BitVec<Vec<usize>>, u64) {
     (bits, bv, fired)
 }
 
+/// Vectors beyond 2^32 bits (RankSmall's upper counters): built word by word from random gaps, no per-bit model.
+fn build_huge(c: &RanksCase) -> (Vec<usize>, BitVec<Vec<usize>>) {
+    let len = c.len;
+    let complement = c.shape == "huge0";
+    let mut words = vec![if complement { usize::MAX } else { 0usize }; len.div_ceil(64)];
+    let mut ones = Vec::new();
+    let mut rng = Rng::new(c.seed);
+    let avg = 1usize << (8 + c.dens as usize % 10);
+    let mut pos = rng.usize_below(avg);
+    while pos < len {
+        if complement {
+            words[pos / 64] &= !(1 << (pos % 64));
+        } else {
+            words[pos / 64] |= 1 << (pos % 64);
+        }
+        ones.push(pos);
+        // dense runs now and then, so that blocks around the 2^32 boundary are not all alike
+        pos += if rng.chance(1, 5) { 1 } else { 1 + rng.usize_below(2 * avg) };
+    }
+    // stale bits beyond len in the last word
+    if len % 64 != 0 {
+        if c.tail != "clean" && !complement {
+            *words.last_mut().unwrap() |= usize::MAX << (len % 64);
+        }
+        if c.tail == "clean" && complement {
+            *words.last_mut().unwrap() &= !(usize::MAX << (len % 64));
+        }
+    }
+    (ones, unsafe { BitVec::from_raw_parts(words, len) })
+}
+
 struct Model {
     len: usize,
+    /// positions of the ones (empty and `!have_ones` for huge mostly-ones vectors)
     ones: Vec<usize>,
+    /// positions of the zeros (empty and `!have_zeros` for huge mostly-zeros vectors)
     zeros: Vec<usize>,
+    have_ones: bool,
+    have_zeros: bool,
 }
 
 impl Model {
     fn rank(&self, p: usize) -> usize {
-        self.ones.partition_point(|&x| x < p)
+        if self.have_ones {
+            self.ones.partition_point(|&x| x < p)
+        } else {
+            p - self.zeros.partition_point(|&x| x < p)
+        }
+    }
+    fn n_ones(&self) -> usize {
+        if self.have_ones {
+            self.ones.len()
+        } else {
+            self.len - self.zeros.len()
+        }
+    }
+    fn bit(&self, i: usize) -> bool {
+        if self.have_ones {
+            self.ones.binary_search(&i).is_ok()
+        } else {
+            self.zeros.binary_search(&i).is_err()
+        }
     }
 }
 
@@ -238,13 +291,9 @@ macro_rules! chk_basic {
         // bit indexing through the wrappers
         let n = $m.len;
         let stride = (n / 2000).max(1);
-        let mut oi = 0usize;
         let mut i = 0;
         while i < n && $out.violation.is_none() {
-            while oi < $m.ones.len() && $m.ones[oi] < i {
-                oi += 1;
-            }
-            let want = oi < $m.ones.len() && $m.ones[oi] == i;
+            let want = $m.bit(i);
             $out.checks += 1;
             if $s[i] != want {
                 $out.fail(Violation::new("index", format!("ranksel:{}:index", $name), format!("s[{i}] = {}", $s[i]), format!("{want}")));
@@ -258,16 +307,16 @@ macro_rules! chk_numbits {
     ($s:expr, $m:expr, $out:expr, $name:expr, $tail:expr) => {{
         set_op("num_ones");
         $out.checks += 2;
-        if $out.violation.is_none() && NumBits::num_ones(&$s) != $m.ones.len() {
+        if $out.violation.is_none() && NumBits::num_ones(&$s) != $m.n_ones() {
             $out.fail(Violation::new(
                 "num_ones",
                 format!("ranksel:{}:num_ones:{}", $name, $tail),
                 format!("num_ones() = {} (len {})", NumBits::num_ones(&$s), $m.len),
-                format!("{}", $m.ones.len()),
+                format!("{}", $m.n_ones()),
             ));
         }
-        if $out.violation.is_none() && NumBits::num_zeros(&$s) != $m.zeros.len() {
-            $out.fail(Violation::new("num_zeros", format!("ranksel:{}:num_zeros:{}", $name, $tail), format!("{}", NumBits::num_zeros(&$s)), format!("{}", $m.zeros.len())));
+        if $out.violation.is_none() && NumBits::num_zeros(&$s) != $m.len - $m.n_ones() {
+            $out.fail(Violation::new("num_zeros", format!("ranksel:{}:num_zeros:{}", $name, $tail), format!("{}", NumBits::num_zeros(&$s)), format!("{}", $m.len - $m.n_ones())));
         }
     }};
 }
@@ -284,7 +333,7 @@ macro_rules! chk_rank {
             $out.checks += 2;
             if got != want {
                 let class = if p >= $m.len { "past_end" } else if p % 512 == 0 { "block_boundary" } else { "inside" };
-                $out.fail(Violation::new("rank", format!("ranksel:{}:rank:{}:{}", $name, $tail, class), format!("rank({p}) = {got} (len {}, ones {})", $m.len, $m.ones.len()), format!("{want}")));
+                $out.fail(Violation::new("rank", format!("ranksel:{}:rank:{}:{}", $name, $tail, class), format!("rank({p}) = {got} (len {}, ones {})", $m.len, $m.n_ones()), format!("{want}")));
                 break;
             }
             let gz = RankZero::rank_zero(&$s, p);
@@ -300,7 +349,8 @@ macro_rules! chk_rank {
 macro_rules! chk_select {
     ($s:expr, $m:expr, $out:expr, $name:expr, $tail:expr, $seed:expr) => {{
         set_op("select");
-        let cnt = $m.ones.len();
+        // (huge mostly-ones vectors carry no one positions in the model)
+        let cnt = if $m.have_ones { $m.ones.len() } else { 0 };
         for r in ranks_to_probe(cnt, $seed) {
             if $out.violation.is_some() {
                 break;
@@ -312,7 +362,7 @@ macro_rules! chk_select {
             }
         }
         for r in [cnt, cnt + 1, cnt + 64, usize::MAX] {
-            if $out.violation.is_some() {
+            if $out.violation.is_some() || !$m.have_ones {
                 break;
             }
             let got = Select::select(&$s, r);
@@ -327,7 +377,8 @@ macro_rules! chk_select {
 macro_rules! chk_select_zero {
     ($s:expr, $m:expr, $out:expr, $name:expr, $tail:expr, $seed:expr) => {{
         set_op("select_zero");
-        let cnt = $m.zeros.len();
+        // (huge vectors carry no zero positions in the model)
+        let cnt = if $m.have_zeros { $m.zeros.len() } else { 0 };
         for r in ranks_to_probe(cnt, $seed ^ 9) {
             if $out.violation.is_some() {
                 break;
@@ -344,7 +395,7 @@ macro_rules! chk_select_zero {
             }
         }
         for r in [cnt, cnt + 1, usize::MAX] {
-            if $out.violation.is_some() {
+            if $out.violation.is_some() || !$m.have_zeros {
                 break;
             }
             let got = SelectZero::select_zero(&$s, r);
@@ -528,6 +579,17 @@ impl World for RankselWorld {
         } else {
             (len, shape)
         };
+        // a few vectors just beyond 2^32 bits for the structures with 64-bit upper counters
+        let huge_ok = matches!(
+            structure.as_str(),
+            "ranksmall0" | "ranksmall1" | "ranksmall2" | "ranksmall3" | "ranksmall4" | "ss0" | "ss1" | "ss2" | "ss3" | "ss4" | "rank9" | "select9" | "sa" | "sac" | "szs0" | "szs1" | "szs2" | "szs3" | "szs4" | "sza" | "szac"
+        );
+        let zero_side = structure.starts_with("sz") || (structure.starts_with("ranksmall") && rng.chance(1, 3));
+        let (len, shape) = if huge_ok && run % 3001 < list.len() as u64 * 2 && rng.chance(1, if tier == Tier::Thorough { 3 } else { 8 }) {
+            ((1usize << 32) + rng.urange(1, 200_000), if zero_side { "huge0" } else { "huge" })
+        } else {
+            (len, shape)
+        };
         let small_inv = shape.starts_with("gapmix");
         RanksCase {
             len,
@@ -545,9 +607,26 @@ impl World for RankselWorld {
     fn execute(prop: &str, c: &RanksCase) -> Outcome {
         let mut out = Outcome::default();
         out.nontrivial = c.len > 0;
-        let (bits, bv, fired) = build(c);
-        let m = Model { len: bits.len(), ones: (0..bits.len()).filter(|&i| bits[i]).collect(), zeros: (0..bits.len()).filter(|&i| !bits[i]).collect() };
-        drop(bits);
+        let huge = c.shape == "huge" || c.shape == "huge0";
+        let (m, bv, fired) = if huge {
+            let (listed, bv) = build_huge(c);
+            // only the sparse side is materialised for huge vectors: rank, and select of the sparse side, are checked
+            if c.shape == "huge0" {
+                (Model { len: c.len, ones: Vec::new(), zeros: listed, have_ones: false, have_zeros: true }, bv, (c.tail != "clean") as u64)
+            } else {
+                (Model { len: c.len, ones: listed, zeros: Vec::new(), have_ones: true, have_zeros: false }, bv, (c.tail != "clean") as u64)
+            }
+        } else {
+            let (bits, bv, fired) = build(c);
+            (
+                Model { len: bits.len(), ones: (0..bits.len()).filter(|&i| bits[i]).collect(), zeros: (0..bits.len()).filter(|&i| !bits[i]).collect(), have_ones: true, have_zeros: true },
+                bv,
+                fired,
+            )
+        };
+        if huge {
+            out.probe("huge_vectors_beyond_2^32_bits", 1);
+        }
         match c.tail.as_str() {
             "pop" => out.fault_n("slack.tail.stale_after_pop", fired),
             "raw" => out.fault_n("slack.tail.garbage", fired),
@@ -559,7 +638,7 @@ impl World for RankselWorld {
         let dc = if m.len == 0 {
             "empty"
         } else {
-            match 1000 * m.ones.len() / m.len {
+            match 1000 * m.n_ones() / m.len {
                 0 => "d~0",
                 1..=99 => "sparse",
                 100..=899 => "mid",
